@@ -46,7 +46,16 @@ class Command(SerializableMixin, DictableMixin):
         self.argument = match.group(2).decode('utf-8', errors='surrogateescape')
 
     def to_bytes(self):
-        return '{0} {1}\r\n'.format(self.name, self.argument).encode(
+        line = '{0} {1}'.format(self.name, self.argument)
+
+        if re.search(r'[\r\n\x00]', line):
+            # A command is exactly one line. CR, LF or NUL (for example,
+            # percent-decoded from the URL) would let the argument smuggle
+            # in additional commands.
+            raise ProtocolError(
+                'Control character in FTP command: {0}'.format(ascii(line)))
+
+        return '{0}\r\n'.format(line).encode(
             'utf-8', errors='surrogateescape')
 
     def to_dict(self):
